@@ -115,11 +115,16 @@ type Sim struct {
 	inflight int64
 	closedAuthority string
 	stop    chan struct{}
+	latency int64 // > 0: every response is delayed by this many milliseconds
 	jitter  int64 // > 0: every response is delayed by a pseudo-random 0..8 ms derived from this seed and the target
 }
 
 // SetJitter makes loads complete in many different orders (C08); 0 switches it off.
 func (s *Sim) SetJitter(seed int64) { atomic.StoreInt64(&s.jitter, seed) }
+
+// SetLatency delays every response by this many milliseconds (0: not at all): slow servers, each answer well within
+// the client's timeout.
+func (s *Sim) SetLatency(ms int64) { atomic.StoreInt64(&s.latency, ms) }
 
 // New starts nhosts TLS listeners and one plaintext canary.
 func New(nhosts int) *Sim { return newSim(nhosts, false) }
@@ -400,6 +405,9 @@ func (s *Sim) handle(h *host, raw net.Conn) {
 	}
 	if fault != nil && fault.LatencyMs > 0 {
 		time.Sleep(time.Duration(fault.LatencyMs) * time.Millisecond)
+	}
+	if ms := atomic.LoadInt64(&s.latency); ms > 0 {
+		time.Sleep(time.Duration(ms) * time.Millisecond)
 	}
 	if seed := atomic.LoadInt64(&s.jitter); seed > 0 {
 		h := uint64(seed)
